@@ -322,3 +322,7 @@ def check(ctx, run):  # noqa: F811
     _check_before_override(ctx, run)
     no_override_rule(ctx, run)
     derived_series_rule(ctx, run)
+    # R8: the buffer registry itself, exercised by call histories (pfsa/registry.py): every read returns the tensor registered last,
+    # converted to the instrument's device and dtype
+    from ..registry import primary_histories_rule
+    primary_histories_rule(ctx, run, "C17.R8")
